@@ -52,7 +52,8 @@ TIER=${2:-quick}
 build hrun || exit 3
 case "$ID" in
   C02|C03|C04|C06|C07|C12|C14|C15|C16|C17) DRIVERS="hcore" ;;
-  C05|C09|C18) DRIVERS="hcrypto" ;;
+  C09|C18) DRIVERS="hcrypto" ;;
+  C05) DRIVERS="hcrypto hcore" ;;
   C08) DRIVERS="hcrypto hpsown" ;;
   C19) DRIVERS="hbinance" ;;
   C01) DRIVERS="hcrypto hbinance" ;;
